@@ -25,6 +25,10 @@ Shallow == {[kind |-> "line", curve |-> ShallowC(d, a, b, sw), tol2 |-> d * d + 
 (* closed rings and multi-geometries built from the small curves *)
 Close(s) == IF Len(s) = 0 THEN s ELSE Append(s, s[1])
 Rings == {Close(s) : s \in {t \in [1..3 -> Grid(G1)] : NoRepeat(t)} \cup {t \in [1..4 -> Grid(G1)] : Hash(t, 1) % 5 = 0 /\ NoRepeat(t)}}
+(* rings spelled without the closing vertex (the library accepts them everywhere): first and last vertex are kept, the input is
+   not modified - also when the rings of the polygon lie back to back in one array (the harness lays them out that way) *)
+OpenRings == {t \in [1..4 -> Grid(G1)] : NoRepeat(t) /\ t[1] # t[4] /\ Hash(t, 1) % 60 = 1}
+OpenPolys == [kind : {"polyopen"}, rings : {<<r>> : r \in OpenRings} \cup {<<r, q>> : r \in {x \in OpenRings : (Hash(x, 1) \div 60) % 5 = 0}, q \in {x \in OpenRings : (Hash(x, 1) \div 60) % 4 = 1}}, tol2 : {3, 7}]
 Polys == [kind : {"poly"}, rings : {<<>>} \cup {<<r>> : r \in Rings} \cup {<<r, <<>>>> : r \in {x \in Rings : Hash(x, 1) % 7 = 0}}, tol2 : {0, 3}]      \* (<<>>: a polygon without rings)
 Multis == [kind : {"multi"}, lines : {<<a, b>> : a \in {x \in Small : Hash(x, 1) % 11 = 0}, b \in {x \in Small : Hash(x, 1) % 13 = 1}}, tol2 : {3}]
 (* multi-polygons of two one-ring members drawn from the same small lattice (so that one member's chords run through the
@@ -33,6 +37,6 @@ Quads == {r \in Rings : Len(r) = 5}
 MPolys == [kind : {"mpoly"}, polys : {<< <<a>>, <<b>> >> : a \in {x \in Quads : Hash(x, 1) % 37 = 0}, b \in {x \in Rings : Hash(x, 1) % 29 = 1}}
                                     \cup {<< <<b>>, <<a>> >> : a \in {x \in Quads : Hash(x, 1) % 37 = 1}, b \in {x \in Rings : Hash(x, 1) % 29 = 2}}
                                     \cup {<< <<a>>, <<>> >> : a \in {x \in Quads : Hash(x, 1) % 37 = 2}} \cup {<< <<>>, <<a>> >> : a \in {x \in Quads : Hash(x, 1) % 37 = 3}} \cup {<<>>}, tol2 : {3, 7}]
-GenInit == c \in MPolys \cup Lines \cup Scaled \cup {x \in Shallow : Simple(x.curve)} \cup Polys \cup Multis /\ PrintT(ToJson(c))
+GenInit == c \in OpenPolys \cup MPolys \cup Lines \cup Scaled \cup {x \in Shallow : Simple(x.curve)} \cup Polys \cup Multis /\ PrintT(ToJson(c))
 GenSpec == GenInit /\ [][UNCHANGED c]_c
 =============================================================================
